@@ -1405,3 +1405,27 @@ Proof.
   apply trace_shift; auto; [lia | ].
   eapply Forall_impl; [ | exact Hl]. intros j [Hj1 Hj2]. split; [exact Hj1 | lia].
 Qed.
+
+(* continuing from any live state with ANY parameters (a changed engine time step, or a job with other extended-Lagrangian parameters)
+   equals a fresh object started from the integrated values with those parameters: the state carries nothing else *)
+Lemma continue_with_parameters c p s t xe i l :
+  s_x_ext s = Some xe -> s_after_restart s = false -> (0 <= t)%Z -> (0 <= s_prev_ts s < i_step i)%Z -> (t < i_step i)%Z ->
+  i_running i = true -> tsf_error c s i = false ->
+  List.Forall (fun j => i_running j = true /\ (i_step i < i_step j)%Z) l ->
+  trace Rops c p (restart_state Rops xe (s_v_ext s)) (map (shift_input t) (i :: l))
+  = map (shift_state t) (trace Rops c p s (i :: l)).
+Proof.
+  intros Hx Har Ht Hts Hst Hrun Herr Hl. cbn [map trace].
+  set (r0 := restart_state Rops xe (s_v_ext s)). set (i0 := shift_input t i).
+  assert (Hp : props_xv Rops c s i = (xe, s_v_ext s)).
+  { apply props_continue; auto; [lia | left; lia]. }
+  assert (Hp0 : props_xv Rops c r0 i0 = (xe, s_v_ext s)).
+  { unfold r0, i0. rewrite (props_continue c _ _ xe); [reflexivity | exact Hrun | cbn; lia | reflexivity | right; reflexivity]. }
+  assert (Herr0 : tsf_error c r0 i0 = false) by (apply tsf_error_consec; left; reflexivity).
+  assert (Hfirst : step Rops c p r0 i0 = shift_state t (step Rops c p s i)).
+  { rewrite (step_running_eq c p r0 i0 Hrun Herr0), (step_running_eq c p s i Hrun Herr). rewrite Hp, Hp0. reflexivity. }
+  rewrite Hfirst. f_equal.
+  destruct (step_keeps_live c p s i Hrun) as (L1 & L2 & L3).
+  apply trace_shift; auto; [lia | ].
+  eapply Forall_impl; [ | exact Hl]. intros j [Hj1 Hj2]. split; [exact Hj1 | lia].
+Qed.
